@@ -9,6 +9,7 @@ import (
 	"fmt"
 	"os"
 	"path/filepath"
+	"strings"
 	"time"
 )
 
@@ -192,6 +193,22 @@ func runSelfTest() int {
 			fmt.Printf("selftest: ok   corrupted [%s] -> %s fails (%d clause failures in all)\n", co.name, co.expect, len(j.Fails))
 		} else {
 			fmt.Printf("selftest: MISS corrupted [%s] -> expected %s to fail, got %v\n", co.name, co.expect, j.Fails)
+			bad++
+		}
+	}
+	// negative control of the write-protocol model: with the protocol branch -r had before its repair, TLC must find
+	// the state in which HEAD names a branch that does not exist
+	nc := filepath.Join(scratch, "fsold")
+	os.MkdirAll(nc, 0o777)
+	if err := linkSpecs(nc); err != nil {
+		fmt.Println("selftest: INFRA", err)
+		bad++
+	} else {
+		out, _ := tlcCmd(nc, "3g", "-workers", "4", "-config", "MC_FSOld.cfg", "MC_FSOld.tla").CombinedOutput()
+		if strings.Contains(string(out), "Invariant C15_Recoverable is violated") {
+			fmt.Println("selftest: ok   MC_FSOld (rename-first protocol of branch -r) -> TLC reports C15_Recoverable violated")
+		} else {
+			fmt.Println("selftest: MISS MC_FSOld: TLC did not report the rename gap")
 			bad++
 		}
 	}
